@@ -22,14 +22,19 @@ def prop_of(path):
 
 def main():
     pats = sys.argv[1:]
+    jobs = 1
+    if pats and pats[0].startswith("-j"):
+        jobs = int(pats[0][2:] or 2)
+        pats = pats[1:]
     files = sorted(glob.glob(os.path.join(V, "mutants", "*.patch"))) + sorted(glob.glob(os.path.join(V, "seeded", "*", "patch.diff")))
     if pats:
         files = [f for f in files if any(p in f for p in pats)]
     res = []
-    for f in files:
+
+    def one(f):
         prop = prop_of(f)
         if not prop:
-            continue
+            return
         d = tempfile.mkdtemp(prefix="hwloc-mut.", dir="/var/tmp")
         try:
             subprocess.run(["rsync", "-a", "--exclude", ".git", REPO + "/", d + "/"], check=True)
@@ -37,7 +42,7 @@ def main():
             if p.returncode != 0:
                 res.append({"patch": os.path.relpath(f, V), "property": prop, "result": "does-not-apply", "detail": (p.stdout + p.stderr)[-300:]})
                 print(res[-1], flush=True)
-                continue
+                return
             t = time.time()
             env = dict(os.environ, HWLOC_REPO=d)
             q = subprocess.run([sys.executable, os.path.join(V, "tools", "check.py"), prop, "--tier", "quick"], cwd=V, env=env, capture_output=True, text=True)
@@ -50,7 +55,10 @@ def main():
             print(r, flush=True)
         finally:
             shutil.rmtree(d, ignore_errors=True)
-            # the evidence file was rewritten by a run against a mutated copy: it is restored by the next real run
+
+    from concurrent.futures import ThreadPoolExecutor
+    with ThreadPoolExecutor(max_workers=jobs) as ex:
+        list(ex.map(one, files))
     with open(os.path.join(V, "mutants", "RESULTS.jsonl"), "a") as fo:
         for r in res:
             fo.write(json.dumps(r) + "\n")
